@@ -30,7 +30,8 @@ def _on_alarm(signum, frame):
     raise StateTimeout()
 
 
-STATE_TIMEOUT = float(os.environ.get("VERIF_STATE_TIMEOUT", "900"))     # seconds per replayed state (a state takes milliseconds to seconds)
+STATE_TIMEOUT = float(os.environ.get("VERIF_STATE_TIMEOUT", "600"))     # seconds per replayed state (a state takes milliseconds to seconds)
+TIMEOUTS_SEEN = mp.Value("i", 0)      # shared by the forked workers: after a few timed-out states the budget of the rest shrinks
 
 
 def _run_chunk(args):
@@ -49,12 +50,14 @@ def _run_chunk(args):
             problems.append({"cls": "machinery", "msg": "unparsable state: %s" % e, "key": {"cls": "machinery"}})
             continue
         try:
-            signal.setitimer(signal.ITIMER_REAL, STATE_TIMEOUT)
+            signal.setitimer(signal.ITIMER_REAL, STATE_TIMEOUT if TIMEOUTS_SEEN.value < 4 else min(STATE_TIMEOUT, 30.0))
             try:
                 r = handler(st, opts)
             finally:
                 signal.setitimer(signal.ITIMER_REAL, 0)
         except StateTimeout:
+            with TIMEOUTS_SEEN.get_lock():
+                TIMEOUTS_SEEN.value += 1
             # the call did not return: every property promises a result (or an exception), so this is a deviation of the
             # property the handler serves, reported with the state for replay
             prop = (opts or {}).get("prop") or (st.get("cfg", {}).get("op") and None)
